@@ -29,7 +29,7 @@ META = {
                     'pages without Contents in the middle of a listing are outside the claim'],
 }
 
-ENCODINGS = ('utf8', 'utf8-decl', 'utf8-bom', 'latin1-decl', 'utf16')
+ENCODINGS = ('utf8', 'utf8-decl', 'utf8-bom', 'latin1-decl', 'utf16', 'utf16be-nl', 'utf8-nl')
 
 
 def encode(doc, enc):
@@ -43,6 +43,10 @@ def encode(doc, enc):
         return ('<?xml version="1.0" encoding="ISO-8859-1"?>\n' + doc).encode('latin-1', 'xmlcharrefreplace')
     if enc == 'utf16':
         return ('<?xml version="1.0" encoding="UTF-16"?>\n' + doc).encode('utf-16')
+    if enc == 'utf16be-nl':      # big-endian with BOM, ending in a line feed
+        return codecs.BOM_UTF16_BE + ('<?xml version="1.0" encoding="UTF-16"?>\n' + doc + '\n').encode('utf-16-be')
+    if enc == 'utf8-nl':
+        return (doc + '\n\n').encode('utf-8')
     raise ValueError(enc)
 
 
